@@ -381,6 +381,65 @@ def check_weights(ctx):
                           {"directed": directed})
 
 
+CONSUMERS = ["total_link_distance", "intotal_link_distance",
+             "outtotal_link_distance", "connectivity_weighted_distance",
+             "inconnectivity_weighted_distance",
+             "outconnectivity_weighted_distance",
+             "local_geographical_clustering", "average_link_distance",
+             "inaverage_link_distance", "outaverage_link_distance",
+             "max_link_distance", "distance",
+             "average_distance_weighted_path_length",
+             "distance_weighted_closeness",
+             "area_weighted_connectivity",
+             "average_neighbor_area_weighted_connectivity"]
+
+
+def check_after_consumers(ctx):
+    """The grid's distance matrices are what every geographic measure reads:
+    they must still equal the closed form after each of those measures has
+    run (a measure that edits the matrix it was handed makes every later
+    distance wrong)."""
+    from pyunicorn.core.geo_grid import GeoGrid
+    from pyunicorn.core.geo_network import GeoNetwork
+    rng = ctx.rng
+    n = rng.randint(2, 9)
+    lat, lon, kind = coords(rng, n, rng.choice(["random", "coincident",
+                                                "antimeridian"]))
+    n = len(lat)
+    lat = np.clip(lat, -85, 85)
+    directed = rng.random() < 0.3
+    A = graphs.random_graph(rng, n, 0.2 + 0.8 * rng.random(),
+                            directed=directed)
+    key = {"lat": lat.astype(float).tolist(),
+           "lon": lon.astype(float).tolist(), "A": A.tolist(),
+           "directed": directed}
+    ctx.evaluations += 1
+    ctx.stat("distances after consumers")
+    with warnings.catch_warnings():
+        warnings.simplefilter("ignore")
+        g = GeoGrid(np.arange(2), lat, lon, silence_level=3)
+        net = GeoNetwork(g, adjacency=A, directed=directed,
+                         node_weight_type="surface", silence_level=3)
+        E = exact_angle(g.lat_sequence(), g.lon_sequence())
+        names = CONSUMERS[:]
+        rng.shuffle(names)
+        for nm in names:
+            try:
+                with np.errstate(all="ignore"):
+                    getattr(net, nm)()
+            except Exception:
+                ctx.stat("consumer undefined here")
+                continue
+            D = np.asarray(g.angular_distance(), float)
+            if not np.all(np.isfinite(D)) or np.abs(D - E).max() >= TOL_ABS \
+                    or np.abs(np.diag(D)).max() >= TOL_ABS:
+                ctx.violation("GeoGrid.angular_distance",
+                              "no longer the closed form after GeoNetwork."
+                              + nm + "()", dict(key, after=nm),
+                              {"history": True})
+                return
+
+
 # --------------------------------------------------------------------------
 
 def run_all(ctx, terms=None):
@@ -419,6 +478,8 @@ def run_all(ctx, terms=None):
         check_lookup(ctx, terms)
     for _ in range(ctx.n(15, 120)):
         check_weights(ctx)
+    for _ in range(ctx.n(15, 120)):
+        check_after_consumers(ctx)
 
 
 def correspondence(ctx):
